@@ -69,6 +69,11 @@ fn literal(src: &mut Src, st: &mut Stats, _env: &Env) -> CaseResult {
         // integers at the edge of the 64-bit ranges keep their exact value
         let i: i128 = *src.pick(&[i64::MAX as i128, i64::MIN as i128, u64::MAX as i128, (1i128 << 53) + 1, -(1i128 << 53) - 1, (1i128 << 63) + 1]);
         (J::Num(N::Int(i)), i.to_string())
+    } else if src.chance(50) {
+        // numerals with a fraction or an exponent (at most 15 significant digits: the double they
+        // denote is fixed), whole values far outside the 64-bit integers among them
+        let t = *src.pick(&["1e19", "-1e19", "1e300", "-1e300", "1.5e300", "2.5", "1e2", "1E+2", "100.0", "0.1", "-0.0", "5e-324", "1e-7", "123456789012345e5", "9.5e18", "1.0", "0.0", "4e9"]);
+        (J::f(t.parse::<f64>().unwrap()), t.to_string())
     } else if src.chance(80) {
         let s = tricky_string(src);
         let t = spell_string(&s, src, true);
